@@ -1398,7 +1398,7 @@ class Grid(object):
             return self
         num = num + (0,) * (2 * self.ndim - len(num))
         num_ = torch.tensor(num, dtype=self.dtype, device=self.device)
-        size = torch.clamp(self._size - num_[::2] - num_[1::2], min=1)
+        size = torch.clamp(self.size_tensor() - num_[::2] - num_[1::2], min=1)
         size = torch.where(self._size.gt(0), size, self._size)
         origin = self.index_to_world(num_[::2])
         return Grid(
@@ -1454,7 +1454,7 @@ class Grid(object):
             return self
         num = num + (0,) * (2 * self.ndim - len(num))
         num_ = torch.tensor(num, dtype=self.dtype, device=self.device)
-        size = torch.clamp(self._size + num_[::2] + num_[1::2], min=1)
+        size = torch.clamp(self.size_tensor() + num_[::2] + num_[1::2], min=1)
         size = torch.where(self._size.gt(0), size, self._size)
         origin = self.index_to_world(-num_[::2])
         return Grid(
